@@ -21,7 +21,7 @@ VARIABLES nextId, nextSerial, creation, lock, pc, lid, lser, left, issued,
 pvars == <<nextId, nextSerial, creation, lock, pc, lid, lser, left, issued>>
 rvars == <<ctr, rpc, rwords, rleft, rissued>>
 vars == <<pvars, rvars>>
-None == "none"
+None == 0     \* thread identities are model values or positive integers
 Init == /\ nextId = StartId /\ nextSerial = StartSerial /\ creation = 1 /\ lock = None
         /\ pc = [t \in Threads |-> "idle"] /\ lid = [t \in Threads |-> 0] /\ lser = [t \in Threads |-> 0]
         /\ left = [t \in Threads |-> NAlloc] /\ issued = <<>>
@@ -58,7 +58,8 @@ RefWord(t) == /\ rpc[t] < 3 /\ (rpc[t] > 0 \/ rleft[t] > 0)
 RefReturn(t) == /\ rpc[t] = 3 /\ rissued' = Append(rissued, rwords[t])
                 /\ rpc' = [rpc EXCEPT ![t] = 0] /\ rwords' = [rwords EXCEPT ![t] = <<>>]
                 /\ UNCHANGED <<ctr, rleft, pvars>>
-PNext == \E t \in Threads : Call(t) \/ Acquire(t) \/ LoadId(t) \/ LoadSer(t) \/ StoreOne(t) \/ FetchAdd(t) \/ StoreNext(t) \/ Return(t)
+PStep(t) == Call(t) \/ Acquire(t) \/ LoadId(t) \/ LoadSer(t) \/ StoreOne(t) \/ FetchAdd(t) \/ StoreNext(t) \/ Return(t)
+PNext == \E t \in Threads : PStep(t)
 RNext == \E t \in RefThreads : RefWord(t) \/ RefReturn(t)
 Next == PNext \/ RNext
 Spec == Init /\ [][Next]_vars
